@@ -135,45 +135,56 @@ Record header := mk_header {
 Fixpoint take_n {A} (n : nat) (l : list A) : list A :=
   match n, l with S k, x :: r => x :: take_n k r | _, _ => [] end.
 
+(* parse_publicid: first byte 0 -> index form (public_id stays 'unknown'), else numeric *)
+Definition parse_publicid_part (r1 : list N) : pres (N * N * list N) :=
+  match r1 with
+  | [] => PErr P_END_OF_BUFFER
+  | b :: r1' =>
+    if b =? 0 then
+      match mb_read r1' with Ok (i, r) => POk (WBXML_PUBLIC_ID_UNKNOWN, i, r) | Err e => PErr (perr_of e) end
+    else
+      match mb_read r1 with Ok (p, r) => POk (p, NO_INDEX, r) | Err e => PErr (perr_of e) end
+  end.
+
+Definition default_charset (meta_charset : N) : N := if meta_charset =? 0 then CHARSET_UTF_8 else meta_charset.
+
+(* parse_charset (not called for version 1.0 = byte 0) followed by the "Check charset" default *)
+Definition parse_charset_part (version meta_charset : N) (r2 : list N) : pres (N * list N) :=
+  if version =? 0 then POk (default_charset meta_charset, r2)
+  else match mb_read r2 with
+       | Err e => PErr (perr_of e)
+       | Ok (c, r) =>
+         let c' := if c =? 0 then default_charset meta_charset else c in
+         if charset_known c' then POk (if c' =? 0 then default_charset meta_charset else c', r)
+         else PErr P_CHARSET_NOT_FOUND
+       end.
+
+(* parse_strtbl *)
+Definition parse_strtbl_part (version public_id index charset : N) (r3 : list N) : pres header :=
+  match mb_read r3 with
+  | Err _ => PErr P_END_OF_BUFFER
+  | Ok (len, r4) =>
+    if len =? 0 then POk (mk_header version public_id index charset None 0 r4)
+    else if N.of_nat (List.length r4) <? len then PErr P_STRTBL_LENGTH
+    else
+      let st := take_n (N.to_nat len) r4 in
+      let st' := if last st 1 =? 0 then st else st ++ [0; 0; 0; 0] in
+      POk (mk_header version public_id index charset (Some st') len (skipn (N.to_nat len) r4))
+  end.
+
 (* the header part of wbxml_parser_parse: parse_version, parse_publicid, forced override, parse_charset
    (not for version 1.0 = byte 0), default charset, parse_strtbl *)
 Definition parse_header (main : list lang) (forced meta_charset : N) (doc : list N) : pres header :=
   match doc with
   | [] => PErr P_EMPTY_WBXML
   | version :: r1 =>
-    match r1 with
-    | [] => PErr P_END_OF_BUFFER
-    | b :: r1' =>
-      let pid := if b =? 0 then
-                   match mb_read r1' with Ok (i, r) => POk (WBXML_PUBLIC_ID_UNKNOWN, i, r) | Err e => PErr (perr_of e) end
-                 else
-                   match mb_read r1 with Ok (p, r) => POk (p, NO_INDEX, r) | Err e => PErr (perr_of e) end in
-      match pid with
+    match parse_publicid_part r1 with
+    | PErr e => PErr e
+    | POk (public_id0, index, r2) =>
+      let public_id := if forced =? WBXML_LANG_UNKNOWN then public_id0 else get_wbxml_publicid main forced in
+      match parse_charset_part version meta_charset r2 with
       | PErr e => PErr e
-      | POk (public_id0, index, r2) =>
-        let public_id := if forced =? WBXML_LANG_UNKNOWN then public_id0 else get_wbxml_publicid main forced in
-        let cs := if version =? 0 then POk (0, r2)
-                  else match mb_read r2 with
-                       | Err e => PErr (perr_of e)
-                       | Ok (c, r) =>
-                         let c' := if c =? 0 then (if meta_charset =? 0 then CHARSET_UTF_8 else meta_charset) else c in
-                         if charset_known c' then POk (c', r) else PErr P_CHARSET_NOT_FOUND
-                       end in
-        match cs with
-        | PErr e => PErr e
-        | POk (charset0, r3) =>
-          let charset := if charset0 =? 0 then (if meta_charset =? 0 then CHARSET_UTF_8 else meta_charset) else charset0 in
-          match mb_read r3 with
-          | Err _ => PErr P_END_OF_BUFFER
-          | Ok (len, r4) =>
-            if len =? 0 then POk (mk_header version public_id index charset None 0 r4)
-            else if N.of_nat (List.length r4) <? len then PErr P_STRTBL_LENGTH
-            else
-              let st := take_n (N.to_nat len) r4 in
-              let st' := if last st 1 =? 0 then st else st ++ [0; 0; 0; 0] in
-              POk (mk_header version public_id index charset (Some st') len (skipn (N.to_nat len) r4))
-          end
-        end
+      | POk (charset, r3) => parse_strtbl_part version public_id index charset r3
       end
     end
   end.
